@@ -1777,7 +1777,9 @@ class Gen:
                 raise VxError("from anchor /%s/: cannot find the end of the statement" % fre)
             first = body.index("{") + 1
             dropped = body[first:end]
-            decl = "\n        self.vx_prefix();\n" + "".join("        let %s = vx_any();\n" % h for h in havocs)
+            # `name: T` -> arbitrary value; `name: T = EXPR` -> the unit states what the prefix leaves in it (a stub call
+            # carrying an assumed or separately proved contract)
+            decl = "\n        self.vx_prefix();\n" + "".join("        let %s;\n" % h if " = " in h else "        let %s = vx_any();\n" % h for h in havocs)
             body = body[:first] + decl + body[end:]
             self.log.append(dict(rule="F", file=rel, line=fn_line, fn=name,
                                  before="function prefix up to and including the statement /%s/ (%d lines)" % (fre, dropped.count("\n")),
